@@ -229,9 +229,12 @@ def run_window(case):
         res = _propagate_nodes(case, S, wu, wd, nodes, eshift)
         fac = _weight_law(case, S, res, nodes, dt, eshift, wu, wd, phi, None, events, key + "/" + name, F)
         if name in ("above", "below"):
-            events.append(ev("window/outside-gives-zero", bool(np.all(res["weights"] == 0.0)), key=key + "/" + name + "-zero",
-                             absI=[float(np.min(np.abs(res["I"]))), float(np.max(np.abs(res["I"])))]))
-            if np.all(res["weights"] == 0):
+            # the window applies to the projected factor |I| cos(theta), not to |I| alone
+            raw = np.abs(res["I"]) * np.cos(res["theta"])
+            outside = (raw > 100.0) | (raw < 1e-3) | np.isnan(raw)
+            events.append(ev("window/outside-gives-zero", bool(np.all(res["weights"][outside] == 0.0)), key=key + "/" + name + "-zero",
+                             absI=[float(np.min(np.abs(res["I"]))), float(np.max(np.abs(res["I"])))], n_outside=int(outside.sum())))
+            if outside.any() and np.all(res["weights"][outside] == 0):
                 taken.add(name)
     # (2) product cap: factor inside the window but old weight pushes the product above 100
     w0 = np.full(K, 90.0)
@@ -243,7 +246,10 @@ def run_window(case):
     w0 = np.full(K, 1e-3)
     res = _propagate_nodes(case, S, wu, wd, nodes, 700.0, weights0=w0)
     _weight_law(case, S, res, nodes, dt, 700.0, wu, wd, phi, w0, events, key + "/factor-cap-small-weight", F)
-    events.append(ev("window/factor-above-100-kills-even-small-weights", bool(np.all(res["weights"] == 0.0)), key=key + "/factor-cap-small-weight/zero"))
+    raw = np.abs(res["I"]) * np.cos(res["theta"])
+    big = raw > 100.0
+    events.append(ev("window/factor-above-100-kills-even-small-weights", bool(np.all(res["weights"][big] == 0.0)), key=key + "/factor-cap-small-weight/zero",
+                     n_above=int(big.sum())))
     # (4) injected not-a-number / infinite field in one row: that walker dies, the others are untouched
     res_ok = _propagate_nodes(case, S, wu, wd, nodes, 0.3)
     for bad in (np.nan, np.inf, -np.inf):
